@@ -1,5 +1,6 @@
 import SignaloModel.Proofs.MedianRef7
 import SignaloModel.Proofs.MedianAccL
+import SignaloModel.Proofs.BridgeMedian
 /-!
 # C02 — Moving median returns the lower median of the last min(k,N) samples
 
@@ -8,6 +9,8 @@ Property theorems for C02 (statements are printed by `#check`, axioms by `#print
 -/
 open SignaloModel
 
+#check @Registry.median_registry_correct
+#check @Registry.median_registry_robust
 #check @MedianL.medianL_correct
 #check @MedianL.medianL_robust
 #check @MedianL.medianL_one
@@ -16,6 +19,8 @@ open SignaloModel
 #check @Median.window_eq_lastN
 #check @MedianL.refine_step
 
+#print axioms Registry.median_registry_correct
+#print axioms Registry.median_registry_robust
 #print axioms MedianL.medianL_correct
 #print axioms MedianL.medianL_robust
 #print axioms MedianL.medianL_one
